@@ -120,9 +120,9 @@ fn model_of(a: &Assignment) -> Vec<i8> {
 }
 
 /// All models of `clauses` ∧ `assumps` over the variables occurring in them, canonical order.
-pub fn all_models(clauses: &[Vec<isize>], assumps: &[isize], cap: usize) -> (Vec<Vec<bool>>, bool) {
+pub fn all_models(clauses: &[Vec<isize>], assumps: &[isize], cap: usize, min_vars: usize) -> (Vec<Vec<bool>>, bool) {
     let mut s = CadicalSolver::default();
-    let mut maxv = 0usize;
+    let mut maxv = min_vars;
     for c in clauses {
         for l in c {
             maxv = maxv.max(l.unsigned_abs());
@@ -133,6 +133,7 @@ pub fn all_models(clauses: &[Vec<isize>], assumps: &[isize], cap: usize) -> (Vec
         maxv = maxv.max(a.unsigned_abs());
         s.add_clause(vec![Literal::from(*a)]);
     }
+    s.reserve(maxv);
     let mut res: Vec<Vec<bool>> = vec![];
     let mut cut = false;
     loop {
@@ -212,7 +213,7 @@ impl SatSolver for ObsSat {
         }
         let result = if scripted {
             let cap = self.ctl.borrow().model_cap;
-            let (models, cut) = all_models(&self.clauses, &assumps, cap);
+            let (models, cut) = all_models(&self.clauses, &assumps, cap, self.inner.n_vars());
             if models.is_empty() {
                 self.inner.solve_under_assumptions(assumptions)
             } else {
